@@ -68,6 +68,12 @@ func setup(repo, verif string) *Engine {
 		fatal("load: %v", err)
 	}
 	e.expandMods()
+	for _, c := range cs.M {
+		if len(c.NoAlloc) > 0 {
+			e.loadEscapes(pats)
+			break
+		}
+	}
 	return e
 }
 
